@@ -267,6 +267,64 @@ def gen_history(rng, tier):
             'sched': [], 'model_seed': rng.randrange(10 ** 6), 'history': hist}
 
 
+AUX_LINES = ['a = 1', 'b = a + 1', 'c = b * 2', 'd = c - a', 'e = [a, b]', 'f = len(e)']
+
+
+def nameless_tp(n, path, kind='log', via='resp'):
+    """a method tracepoint WITHOUT a method name (stage=method_start / span=method): FunctionLocation(path, None)"""
+    args = dict(th.UNLIMITED)
+    if kind == 'span':
+        args.update(snapshot='no_collect', span='method')
+    else:
+        args.update(snapshot='no_collect', log_msg='nameless', stage='method_start')
+    return {'id': 'tp%d' % n, 'path': path, 'line': 0, 'args': args, 'metrics': [], 'via': via, 'nameless': True}
+
+
+def nameless_case(nlines=3, extra=()):
+    """m0.f runs the module aux.py (source on disk) with exec: a module-level frame of aux.py is traced"""
+    main = ('def f(n, k):\n'
+            '    x = n + 1\n'
+            "    exec(_AUX['aux'], {})\n"
+            '    r = x\n'
+            '    return r\n')
+    aux = '\n'.join(AUX_LINES[:nlines]) + '\n'
+    return {'kind': 'prog', 'mode': 'sys', 'files': {'m0.py': main, 'aux.py': aux}, 'aux': ['aux.py'],
+            'entries': [['m0', 'f', 1]], 'scripts': {}, 'sched': [], 'model_seed': 13, 'stream': 'kf-nameless',
+            'tps': [nameless_tp(0, 'aux.py')] + list(extra)}
+
+
+def gen_nameless(rng, tier):
+    if rng.random() < 0.4:
+        # the instance shape: a module-level frame of the file reaches its last line
+        u = dict(th.UNLIMITED)
+        n = rng.randint(1, len(AUX_LINES))
+        extra = []
+        if rng.random() < 0.6:
+            extra.append({'id': 'tp1', 'path': 'aux.py', 'line': rng.randint(1, n), 'args': u, 'metrics': [],
+                          'via': rng.choice(['resp', 'custom'])})
+        if rng.random() < 0.5:
+            extra.append(nameless_tp(len(extra) + 1, 'm0.py', rng.choice(['log', 'span']), 'custom'))
+        c = nameless_case(n, extra)
+        c['tps'][0] = nameless_tp(0, 'aux.py', rng.choice(['log', 'span']), rng.choice(['resp', 'custom']))
+        c['model_seed'] = rng.randrange(10 ** 6)
+        return c
+    # nameless method tracepoints on files with source next to ordinary ones; no module-level frame is traced
+    case = gen_case(rng, tier, threads=None)
+    if case.get('nosource') or case['mode'] != 'sys':
+        case['mode'], case['sched'] = 'sys', []
+        case.pop('nosource', None)
+        case['tps'] = [tp for tp in case['tps'] if not tp.get('unmatchable')]
+        for f in list(case['files']):
+            case['files'][f] = case['files'][f].replace("    _ARR.put(1)\n", "    x = x\n").replace(
+                "    _TL.go.get(True, 30)\n", "    x = x\n")
+    mods = sorted({os.path.basename(f) for f in case['files']})
+    for _ in range(rng.randint(1, 2)):
+        case['tps'].append(nameless_tp(len(case['tps']), rng.choice(mods), rng.choice(['log', 'span']),
+                                       rng.choice(['resp', 'custom'])))
+    case['stream'] = 'nameless'
+    return case
+
+
 def gen(rng, tier):
     k = 0
     while True:
@@ -277,6 +335,8 @@ def gen(rng, tier):
             yield gen_gated(rng, tier)
         elif k % 8 in (2, 6):
             yield gen_history(rng, tier)
+        elif k % 16 == 5:
+            yield gen_nameless(rng, tier)
         else:
             yield gen_case(rng, tier)
 
@@ -383,6 +443,10 @@ def corpus():
                  {'id': 'tp2', 'path': 'm1.py', 'line': 70008, 'args': dict(u, snapshot='no_collect', log_msg='far'),
                   'metrics': [], 'via': 'custom'},
                  {'id': 'tp3', 'path': 'm0.py', 'line': 2, 'args': u, 'metrics': [], 'via': 'resp'}]},
+        # nameless method tracepoints on a file with source whose frames are function frames only: they never act
+        dict(nameless_case(3, [{'id': 'tp1', 'path': 'm0.py', 'line': 2, 'args': u, 'metrics': [], 'via': 'resp'}]),
+             tps=[nameless_tp(0, 'm0.py'), nameless_tp(1, 'm0.py', 'span', 'custom'),
+                  {'id': 'tp2', 'path': 'm0.py', 'line': 2, 'args': u, 'metrics': [], 'via': 'resp'}], stream='nameless'),
         # no tracepoint at all; and only never-reached ones
         {'kind': 'prog', 'mode': 'sys', 'files': {'m0.py': src}, 'entries': [['m0', 'g', 1]], 'scripts': {},
          'sched': [], 'model_seed': 2, 'tps': []},
@@ -570,7 +634,7 @@ def label(case, obs):
     if 'raised' in obs:
         return 'raised'
     n = sum(len([o for o in e if o['kind'] in FIRED]) for e in obs['effects'].values())
-    return '%s%s/%dthr/%s' % ('lifecycle' if case.get('lifecycle') else 'history' if case.get('history') else
+    return '%s%s%s/%dthr/%s' % ((case['stream'] + '/') if case.get('stream') else '', 'lifecycle' if case.get('lifecycle') else 'history' if case.get('history') else
                               ('gated' + ('' if obs.get('gate') else '-unparked')) if case.get('gated') else case['mode'],
                               '/nosource' if case.get('nosource') else '', len(case['entries']),
                               'none' if n == 0 else 'few' if n < 6 else 'many')
@@ -583,12 +647,22 @@ def nontrivial(case, obs):
     return bool(hit) and any(tp['id'] not in hit for tp in case['tps'])
 
 
+FID_NAMELESS = 'C03/nameless-method-location'
+
+
 def known_finding(case, obs):
-    return None
+    """instance predicate: th.nameless_instance (a nameless method tracepoint on a file with source, and an event of
+    that file at/after the end of its frame's source block)"""
+    if 'raised' in obs or 'ref' not in obs:
+        return None
+    return FID_NAMELESS if th.nameless_instance(case, obs) else None
 
 
 def known_replays():
-    return []
+    return [(FID_NAMELESS, 'a method tracepoint without a method name on aux.py (3 lines, source available): its '
+                           'action runs at the `line` event of the last line of the module-level frame '
+                           '(at_location tests `start <= line >= end` with the EVENT\'s line, not the event kind)',
+             nameless_case())]
 
 
 def shrink(case):
